@@ -39,6 +39,7 @@ func C09(c *core.Ctx) {
 			})
 		}
 	}
+	ruleFidelity(c, "default")
 	c.Floor("families", c.Counts["members"], 35, "family members")
 	// defaults belong to the declaration: two same-named definitions (in two files of one run) that differ only in a default must each keep their own
 	ruleMulti(c, ruleSet("A-DEF"))
